@@ -17,6 +17,7 @@ import (
 	"net/http/httptest"
 	"os"
 	"reflect"
+	"strconv"
 	"strings"
 
 	goahttp "goa.design/goa/v3/http"
@@ -115,6 +116,10 @@ func pmTable(strs ...string) string {
 	return fmt.Sprintf("T %d %s", len(rows), strings.Join(rows, " "))
 }
 
+func emitNotFound(i int, accept string) {
+	fmt.Printf("notfound %s p%d T 0\n", lp.Enc(accept), i)
+}
+
 func emitResp(accept, ct, preset, vk string) {
 	// every header value the implementation may produce and parse again
 	mtCT, _, _ := mime.ParseMediaType(ct)
@@ -141,11 +146,17 @@ func gen(seed uint64, tier string) {
 			}
 		}
 	}
+	for k, a := range accepts {
+		emitNotFound(k, a)
+	}
 	n := 3000
 	if tier == "thorough" {
 		n = 150000
 	}
 	for k := 0; k < n; k++ {
+		if k%50 == 0 {
+			emitNotFound(1000+k, randType(r))
+		}
 		a, c, p := "", "", ""
 		switch r.Intn(3) {
 		case 0:
@@ -209,6 +220,13 @@ func kindOf(x any) string {
 		return "unsupported"
 	}
 	return "other:" + t
+}
+
+func init() {
+	// the debug doer dumps every exchange (binary bodies included) to os.Stderr
+	if null, err := os.OpenFile(os.DevNull, os.O_WRONLY, 0); err == nil {
+		os.Stderr = null
+	}
 }
 
 func run(toks []string) string {
@@ -308,6 +326,29 @@ func run(toks []string) string {
 			res = "keep=string-changed"
 		}
 		return res
+	case "notfound":
+		// a request no route matches is answered by the muxer itself: the 404 body is written in the encoding the Content-Type
+		// that reaches the client announces, so the library's response decoder recovers the error
+		m := goahttp.NewMuxer()
+		m.Handle("GET", "/known", func(http.ResponseWriter, *http.Request) {})
+		req := httptest.NewRequest("GET", "/unknown/"+toks[2], nil)
+		if a := lp.MustDec(toks[1]); a != "" {
+			req.Header.Set("Accept", a)
+		}
+		rec := httptest.NewRecorder()
+		m.ServeHTTP(rec, req)
+		resp := rec.Result() // the headers as they were when the status was written
+		var er goahttp.ErrorResponse
+		if resp.StatusCode != 404 {
+			return "nf=status-" + strconv.Itoa(resp.StatusCode)
+		}
+		if kindOf(goahttp.ResponseDecoder(resp)) == "text" {
+			return "nf=ok" // the text encoding carries strings and bytes only (as for rt=na): nothing to recover
+		}
+		if err := goahttp.ResponseDecoder(resp).Decode(&er); err != nil || er.Name == "" || !er.Fault {
+			return "nf=undecodable:" + lp.Enc(resp.Header.Get("Content-Type"))
+		}
+		return "nf=ok"
 	case "reqenc":
 		h := lp.MustDec(toks[1])
 		req := httptest.NewRequest("POST", "/", nil)
@@ -356,10 +397,35 @@ func roundTrip(enc goahttp.Encoder, w *httptest.ResponseRecorder, hdr, vk string
 		}
 		return "bad"
 	}
-	resp := &http.Response{Header: http.Header{}, Body: io.NopCloser(bytes.NewReader(w.Body.Bytes()))}
-	if hdr != "" {
-		resp.Header.Set("Content-Type", hdr)
+	// the response reaches the decoder the way it reaches a generated client: through its doer — the plain one, and the one the
+	// generated command line tools install for --verbose (goahttp.NewDebugDoer), which reads and restores the bodies
+	for _, debug := range []bool{false, true} {
+		var doer goahttp.Doer = doerFunc(func(*http.Request) (*http.Response, error) {
+			r := &http.Response{StatusCode: 200, Header: http.Header{}, Body: io.NopCloser(bytes.NewReader(w.Body.Bytes()))}
+			if hdr != "" {
+				r.Header.Set("Content-Type", hdr)
+			}
+			return r, nil
+		})
+		if debug {
+			doer = goahttp.NewDebugDoer(doer)
+		}
+		resp, err := doer.Do(httptest.NewRequest("GET", "/", nil))
+		if err != nil {
+			return "bad"
+		}
+		if r := decodeBack(resp, vk, in); r != "ok" || debug {
+			return r
+		}
 	}
+	return "ok"
+}
+
+type doerFunc func(*http.Request) (*http.Response, error)
+
+func (f doerFunc) Do(r *http.Request) (*http.Response, error) { return f(r) }
+
+func decodeBack(resp *http.Response, vk string, in any) string {
 	dec := goahttp.ResponseDecoder(resp)
 	switch vk {
 	case "struct":
